@@ -27,10 +27,10 @@ theorem restB_sound {s : State} (h : restB s = true) : SchedInv s := by
     ops := fun j hj' => OpsOK_allIdle _ _ _ (hj j hj')
     doneBeforeProc := fun j₁ h₁ o₁ ho₁ _ _ _ _ _ hd => absurd hd (nodone j₁ h₁ o₁ ho₁)
     doneDisjoint := fun j₁ h₁ o₁ ho₁ _ _ _ _ _ hd => absurd hd (nodone j₁ h₁ o₁ ho₁)
-    agvPending := fun t ht' hb => absurd (ht t ht').1.1 hb
-    freeNoClaim := fun t ht' _ => (ht t ht').1.2
+    agvPending := fun t ht' hb => absurd (ht t ht').1.1.1 hb
+    freeNoClaim := fun t ht' _ => (ht t ht').1.1.2
     depWaiting := fun t ht' b j tr ho => by
-      have := (ht t ht').2; rw [ho] at this; simp at this }
+      have := (ht t ht').1.2; rw [ho] at this; simp at this }
 
 theorem TimeCfg.nonnegB_sound {c : TimeCfg} (h : c.nonnegB = true) : ∀ t, c = .det t → 0 ≤ t := by
   intro t e; subst e; simpa [TimeCfg.nonnegB] using h
